@@ -13,7 +13,9 @@ from .. import oracles as orc
 
 from ai_edge_quantizer import calibrator, params_generator
 
-THEOREMS = ["C10.stats_complete", "C10.wrapper_uses_recorded_stats", "C10.params_from_stats", "C10.calibrated_lookup_never_missing", "C09.resume"]
+THEOREMS = ["C10.stats_complete", "C10.wrapper_uses_recorded_stats", "C10.params_from_stats", "C10.calibrated_lookup_never_missing", "C09.resume",
+            # … after ANY sequence of resumed calibration sessions (C10c, via C09c.resume_many)
+            "C10c.stats_complete_after_sessions", "C09c.resume_many"]
 
 
 def gen(rng, i):
@@ -117,7 +119,7 @@ def run(ctx):
                 "with ';' separators, prefixes, alternatives, non-matching) x op selectors x configs; calibrate() then quantize() with its "
                 "result must never fail for missing statistics; both real scope builders are compared per op; calibration and the whole "
                 "pipeline are compared with the Lean model; distinct = distinct (model, recipe)")
-    common.proof_side(ctx, THEOREMS, modules=["QProps.C10", "QProps.C10b", "QProps.C09"])
+    common.proof_side(ctx, THEOREMS, modules=["QProps.C10", "QProps.C10b", "QProps.C09", "QProps.C10c"])
     drv = common.Driver()
     rng = ctx.rng
     n = 350 if ctx.tier == "quick" else 3000
